@@ -1,6 +1,7 @@
 package native
 
 import (
+	"encoding/json"
 	"fmt"
 	"os"
 	"runtime"
@@ -29,6 +30,9 @@ type c15Cfg struct {
 	Expiring int   `json:"expiring_entries"`
 	Forever  int   `json:"forever_entries"`
 	CB       bool  `json:"callback"`
+	Waves    int   `json:"waves"`          // further waves of expiring entries stored while the janitor is (or was) at work
+	Ballast  int   `json:"ballast_entries"` // never-expiring entries in cache 0 (stretches every sweep)
+	Gap      int   `json:"wave_gap_us"`    // pause before each further wave, microseconds
 }
 
 var c15Gen = rapid.Custom(func(t *rapid.T) c15Cfg {
@@ -40,6 +44,9 @@ var c15Gen = rapid.Custom(func(t *rapid.T) c15Cfg {
 	c.Expiring = []int{0, 1, 7, 50}[uniform(t, 4, "expiring")]
 	c.Forever = []int{0, 3, 50}[uniform(t, 3, "forever")]
 	c.CB = rapid.Bool().Draw(t, "callback")
+	c.Waves = []int{1, 3, 4, 6}[uniform(t, 4, "waves")]
+	c.Ballast = []int{0, 50000, 150000}[uniform(t, 3, "ballast")]
+	c.Gap = []int{0, 0, 0, 300, 2500, 15000}[uniform(t, 6, "gap")]
 	return c
 })
 
@@ -166,8 +173,23 @@ func oneC15(cfg c15Cfg) (viol string, miss string) {
 			c.Set(fmt.Sprintf("c%d/f%d", i, j), cache.NoExpiration)
 		}
 	}
+	ballast := 0
+	if cfg.Interval > 0 {
+		ballast = cfg.Ballast
+		for j := 0; j < ballast; j++ {
+			caches[0].Set(fmt.Sprintf("b%d", j), cache.NoExpiration)
+		}
+	}
+	want := func(i int) int { // entries cache i must hold once everything expiring is gone
+		if i == 0 {
+			return cfg.Forever + ballast
+		}
+		return cfg.Forever
+	}
 	total := cfg.Expiring + cfg.Forever
-	time.Sleep(3 * time.Millisecond) // all expiring entries are past their instant now
+	if cfg.Interval <= 0 {
+		time.Sleep(3 * time.Millisecond) // all expiring entries are past their instant now
+	}
 	if cfg.Interval > 0 {
 		// (i) cleaned without any user call on the keys, within max(200 intervals, 5 s)
 		deadline := time.Duration(cfg.Interval) * 200 * time.Millisecond
@@ -175,20 +197,52 @@ func oneC15(cfg c15Cfg) (viol string, miss string) {
 			deadline = 5 * time.Second
 		}
 		t0 := time.Now()
-		for {
-			done := true
-			for _, c := range caches[:cfg.Caches] {
-				if c.Count() != cfg.Forever {
-					done = false
+		waitClean := func(wave int) string {
+			tw := time.Now()
+			for {
+				done := true
+				for i, c := range caches[:cfg.Caches] {
+					if c.Count() != want(i) {
+						done = false
+					}
 				}
+				if done {
+					return ""
+				}
+				if time.Since(tw) > deadline {
+					return fmt.Sprintf("interval %dms, wave %d of %d: Count() did not return to the never-expiring population within %v without user calls (janitor not running any more?)", cfg.Interval, wave, cfg.Waves, deadline)
+				}
+				time.Sleep(200 * time.Microsecond)
 			}
-			if done {
-				break
+		}
+		outstanding := cfg.Expiring // expiring entries stored per cache and not yet known to be gone
+		for w := 2; w <= cfg.Waves; w++ {
+			if cfg.Gap == 0 {
+				// reactive: store the next wave the moment a pass is seen at work (first removal observed),
+				// i.e. while the janitor is in the middle of a sweep
+				tw := time.Now()
+				for caches[0].Count() >= want(0)+outstanding && outstanding > 0 && time.Since(tw) < deadline {
+					time.Sleep(20 * time.Microsecond)
+				}
+				if n := caches[0].Count() - want(0); n >= 0 {
+					outstanding = n // what is really still there
+				}
+			} else {
+				if m := waitClean(w - 1); m != "" {
+					return "", m
+				}
+				outstanding = 0
+				time.Sleep(time.Duration(cfg.Gap) * time.Microsecond)
 			}
-			if time.Since(t0) > deadline {
-				return "", fmt.Sprintf("interval %dms: Count() did not drop from %d to %d within %v without user calls (janitor not running?)", cfg.Interval, total, cfg.Forever, deadline)
+			for i, c := range caches[:cfg.Caches] {
+				k := fmt.Sprintf("c%d/w%d", i, w)
+				c.Set(k, 300*time.Microsecond)
+				expired[k] = true
 			}
-			time.Sleep(time.Millisecond)
+			outstanding++
+		}
+		if m := waitClean(cfg.Waves); m != "" {
+			return "", m
 		}
 		stats.Max("max_autoclean_latency_ms", time.Since(t0).Milliseconds())
 		if cfg.CB {
@@ -287,6 +341,9 @@ func TestC15(t *testing.T) {
 	base, _ := strconv.Atoi(os.Getenv("VERIF_CASE_SEED"))
 	for i := 0; i < n; i++ {
 		cfg := c15Gen.Example(base*100003 + i)
+		if f := os.Getenv("VERIF_C15_FORCE"); f != "" {
+			_ = json.Unmarshal([]byte(f), &cfg) // development aid: pin a configuration
+		}
 		viol, miss := oneC15(cfg)
 		if viol == "" && miss != "" {
 			stats.Inc("deadline_missed_once")
